@@ -70,7 +70,7 @@ def c03(tier):
     run = Run("C03", tier)
     run.rule = ("TLC enumerates every grid of the listed sizes over {space,-,|,+} (and one label); each is "
                 "replayed into the real library and the recorded document is checked by the trace spec "
-                "against RefStrokes/TextsExact; plus seeded random grids up to 14x8. Non-trivial = the grid "
+                "against RefStrokes/TextsExact; plus seeded random grids up to 14x8 and grids of boxes nested two to four deep with random content. Non-trivial = the grid "
                 "denotes at least one stroke; events are de-duplicated by input text.")
     sizes = [(3, 2, A1 + [97]), (2, 3, A1 + [97]), (1, 6, A1), (6, 1, A1)]
     nrandom = 6000
@@ -94,6 +94,9 @@ def c03(tier):
         dens = r.choice([0.2, 0.4, 0.7])
         alpha = "-|+" if i % 2 == 0 else "-|+" + r.choice(gen.LABELS) + r.choice(gen.LABELS)
         texts.append(gen.random_grid(r, w, h, alpha, dens))
+    # structure the random grids hardly ever produce: boxes nested two to four deep with random content inside
+    for i in range(nrandom // 6):
+        texts.append(gen.nested_grid(r, "-|+" if i % 2 == 0 else "-|+" + r.choice(gen.LABELS) + r.choice(gen.LABELS)))
     texts = gen.dedup(texts)
     observe_events(run, texts, ["C03"], "random-grid")
     run.samples.append({"input": texts[0]})
@@ -1003,7 +1006,28 @@ def c05(tier):
         muts.append(mutate(r, t, C05_ALPHA))
     rnd = [gen.random_grid(r, r.randint(2, 10), r.randint(2, 6), C05_ALPHA[:-1], r.choice([0.5, 0.8, 0.95])) for _ in range(n // 2)]
     corpus = gen.mixed_corpus(r, n // 3)
-    observe_events(run, gen.dedup(muts + rnd + corpus), ["C05s"], "soundness")
+    # rounded outlines whose four corners are drawn, independently, in the aligned form (corner character in the
+    # sides' column) or the offset form (one column inside, the side starting a row lower): all sixteen mixes;
+    # the uniform ones are boxes, the others are closed outlines that are not rectangles
+    mixed = []
+    for w in range(2, 9 if tier == "quick" else 24):
+        for h in range(1, 4 if tier == "quick" else 10):
+            for m in range(16):
+                if tier == "quick" and (w + h + m) % 3:
+                    continue
+                tl, tr, bl, br = m & 1, (m >> 1) & 1, (m >> 2) & 1, (m >> 3) & 1
+                k = r.randint(0, 3)
+                W = w + 2
+                top = [" "] * W
+                bot = [" "] * W
+                for x in range(tl, W - tr):
+                    top[x] = "-"
+                for x in range(bl, W - br):
+                    bot[x] = "-"
+                top[tl], top[W - 1 - tr], bot[bl], bot[W - 1 - br] = ".", ".", "'", "'"
+                rows = ["".join(top)] + ["|" + " " * w + "|"] * h + ["".join(bot)]
+                mixed.append("\n".join((" " * k + x).rstrip() for x in rows))
+    observe_events(run, gen.dedup(muts + rnd + corpus + mixed), ["C05s"], "soundness")
     run.samples.append({"input": muts[0]})
     run.validate()
     from . import stages
@@ -1056,7 +1080,8 @@ def c13(tier):
     run.rule = ("model: for all 22 catalogue entries x offsets 0..3 x 0..3 the circle given by the entry's documented "
                 "parameters satisfies the independent CircleOracle (radius from the drawing's width, horizontal "
                 "extent, every character within 20 lattice units of the circle) - TLC; each behaviour is replayed; "
-                "code: 22 drawings x %s placements, alone and with unrelated content below; TLC checks the input is "
+                "code: 22 drawings x %s placements, alone, with unrelated content below, and with one label character in a "
+                "blank cell of the drawing's rows (inside or beside it, not touching it); TLC checks the input is "
                 "the placed drawing and CircleOracle on the single circle element. every case is non-trivial"
                 % ("a stratified sample of offsets in 0..60 x 0..40" if tier == "quick" else "all offsets 0..60 x 0..40"))
     r = common.rng("C13")
@@ -1090,7 +1115,28 @@ def c13(tier):
         extra = 1 if j % 3 == 0 else 0
         if extra:
             body = body + "\n\n" + r.choice(["+--+\n|  |\n+--+", "hello -->", "  /\n /", "*---o"])
-        cases.append((body, {"idx": idx + 1, "k": k, "n": nn, "extra": extra}))
+        cases.append((body, {"idx": idx + 1, "k": k, "n": nn, "extra": extra, "lx": 0, "ly": 0, "lch": 0}))
+    # one plain label character in a blank cell of the drawing's rows, not touching the drawing: inside a large
+    # drawing, in a corner of its bounding box, or beside it
+    for j, (idx, k, nn) in enumerate(places):
+        if j % (2 if tier == "quick" else 7):
+            continue
+        D = cat[idx]
+        wmax = max(len(x) for x in D)
+        for _try in range(30):
+            ly = nn + r.randrange(len(D))
+            lx = r.randint(max(k - 2, 0), k + wmax + 1)
+            row = " " * k + D[ly - nn]
+            cells = [(k + x, nn + y) for y, dr in enumerate(D) for x, ch in enumerate(dr) if ch != " "]
+            # "unrelated content elsewhere": the label does not touch the drawing (a touching character shares the
+            # drawing's span and is part of what is matched against the catalogue)
+            if (lx >= len(row) or row[lx] == " ") and all(abs(cx - lx) > 1 or abs(cy - ly) > 1 for cx, cy in cells):
+                lch = r.choice(gen.LABELS)
+                rows = [" " * k + x for x in D]
+                rw = rows[ly - nn].ljust(lx + 1)
+                rows[ly - nn] = rw[:lx] + lch + rw[lx + 1:]
+                cases.append(("\n" * nn + "\n".join(rows), {"idx": idx + 1, "k": k, "n": nn, "extra": 2, "lx": lx, "ly": ly, "lch": ord(lch)}))
+                break
     obs = observe.observe([{"input": t} for t, _ in cases], tag="C13B")
     for (t, circ), o in zip(cases, obs):
         run.add_event({"props": ["C13"], "rows": o["rows"], "doc": o["doc"], "circ": circ}, {"input": t, "circ": circ})
